@@ -336,6 +336,32 @@ theorem swapElems_err_second (m : Matrix α) (x : Nat) (e : Error) :
     m.swapElems (.ok (.ok x)) (.ok (.error e)) = .ok (.error e, m) := by
   simp [Matrix.swapElems, bind, Except.bind, pure, Except.pure]
 
+/-- the two indices of an element swap play symmetric roles -/
+theorem swapElems_symm (m : Matrix α) (x y : Nat) (hx : x < m.data.size) (hy : y < m.data.size) :
+    m.swapElems (.ok (.ok x)) (.ok (.ok y)) = m.swapElems (.ok (.ok y)) (.ok (.ok x)) := by
+  simp [Matrix.swapElems, ptrSwap, hx, hy, bind, Except.bind, pure, Except.pure, Array.swap_comm]
+
+theorem swap_self' (d : Array α) (x : Nat) (h : x < d.size) : d.swap x x h h = d := by
+  apply Array.ext
+  · simp
+  · intro i h1 h2; simp only [Array.getElem_swap]; split
+    · next e => subst e; rfl
+    · rfl
+
+/-- swapping an element with itself leaves the matrix exactly as it was -/
+theorem swapElems_self (m : Matrix α) (x : Nat) (hx : x < m.data.size) :
+    m.swapElems (.ok (.ok x)) (.ok (.ok x)) = .ok (.ok (), m) := by
+  simp [Matrix.swapElems, ptrSwap, hx, bind, Except.bind, pure, Except.pure, swap_self']
+
+/-- an element swap is its own inverse: doing it twice gives back exactly the matrix one started
+from -/
+theorem swapElems_involutive (m : Matrix α) (x y : Nat) (hx : x < m.data.size) (hy : y < m.data.size) :
+    ∃ m', m.swapElems (.ok (.ok x)) (.ok (.ok y)) = .ok (.ok (), m') ∧
+      m'.swapElems (.ok (.ok x)) (.ok (.ok y)) = .ok (.ok (), m) := by
+  refine ⟨{ m with data := m.data.swap x y hx hy }, ?_, ?_⟩
+  · simp [Matrix.swapElems, ptrSwap, hx, hy, bind, Except.bind, pure, Except.pure]
+  · simp [Matrix.swapElems, ptrSwap, hx, hy, bind, Except.bind, pure, Except.pure]
+
 /- The table theorem `swap_dispatch_duality` (T1: which axis `swap_rows` / `swap_cols` use per order, read by a regular
 expression) was retired in the fourth session: `BridgeT11.swap_rows_bridge` / `swap_cols_bridge` prove the regenerated
 dispatch equal to the model's, which is strictly stronger, and the table alarmed on harmless rewrites (`let order =
